@@ -227,10 +227,11 @@ class DomainParser:
             self.logger.warning("Received an action with no preconditions.")
             return
 
-        if preconditions_ast[0] != "and" and len(preconditions_ast[1:]) > 1:
-            raise SyntaxError(
-                f"Only accepting conjunctive preconditions! Action - {new_action.name} does not conform!"
+        if preconditions_ast[0] != "and":
+            self.logger.debug(
+                "The precondition is a single condition, treating it as a conjunction with one conjunct."
             )
+            preconditions_ast = ["and", preconditions_ast]
 
         action_preconditions = CompoundPrecondition()
         self.preconditions_parser.parse(
